@@ -66,6 +66,28 @@ Theorem C36_run_report_order_independent : forall keep v v' o o',
 Proof. exact run_report_order_independent_lemma. Qed.
 Print Assumptions C36_run_report_order_independent.
 
+(* ---- the proposed repair: Canonicalize compares two more keys after the six (level, then a rendering of
+   everything else), model comparison dcmp2.  Then the hypothesis on the keys disappears: the only thing
+   left is that one path is one File object within a report. ---- *)
+Theorem C36_canon_perm_invariant_repaired : forall keep l l' o o',
+  Permutation l l' -> one_file_per_path l ->
+  canon_rel_c dcmp2 keep l o -> canon_rel_c dcmp2 keep l' o' -> o = o'.
+Proof. exact canon_perm_invariant_repaired_lemma. Qed.
+Print Assumptions C36_canon_perm_invariant_repaired.
+
+Theorem C36_canon_idempotent_repaired : forall keep l o o',
+  no_sentinel l -> one_file_per_path l ->
+  canon_rel_c dcmp2 keep l o -> canon_rel_c dcmp2 keep o o' -> o' = o.
+Proof. exact canon_idempotent_repaired_lemma. Qed.
+Print Assumptions C36_canon_idempotent_repaired.
+
+Theorem C36_run_report_order_independent_repaired : forall keep v v' o o',
+  Permutation v v' -> one_file_per_path (concat v) ->
+  run_report_c dcmp2 keep v o -> run_report_c dcmp2 keep v' o' -> o = o'.
+Proof. exact run_report_order_independent_repaired_lemma. Qed.
+Print Assumptions C36_run_report_order_independent_repaired.
+
+
 (* non-vacuity: four diagnostics with one duplicate pair (same span, same tag), two input orders *)
 Example C36_nonvacuous :
   keys_injective [ex_1; ex_2; ex_3; ex_4] /\ no_sentinel [ex_1; ex_2; ex_3; ex_4] /\
